@@ -4,6 +4,7 @@ From Coq Require Import List ZArith.
 From Garr Require Import Conc.Conc Conc.Lin Pure.F64 Adder.StripedModel Adder.SimpleModel Adder.AdderSpec.
 From Garr Require Import Adder.SimpleMutex Adder.SimpleAtomic.
 From Garr Require Import Adder.StripedInv Adder.StripedPhase Adder.StripedSeq Adder.StripedC16.
+From Garr Require Import Adder.SimpleSeqLib Adder.SimpleRCSeq Adder.SimpleRCPhase Adder.SimpleRCC16 Adder.SimpleAtomicSeq.
 Import ListNotations.
 Local Open Scope Z_scope.
 
@@ -39,7 +40,7 @@ Print Assumptions C16_atomic_adder.
     unreachable arrays is preserved and suffices for the next concurrent
     phase.) *)
 Theorem C16_jdk_adder : forall f64 maxcells s v ops m c e,
-  reach16 wrap64 wadd f64 maxcells s v -> Forall (op_ok wrap64) ops ->
+  reach16 wrap64 wadd f64 maxcells s v -> Forall (StripedSeq.op_ok wrap64) ops ->
   run (striped wadd f64 maxcells) (Config s [mk_thread apc tt ops]) (repeat 0%nat m) = (c, e) ->
   all_done c ->
   rets e = snd (spec_run wadd v ops).
@@ -53,7 +54,7 @@ Proof. exact striped_C16_exact. Qed.
 
 (** and every such call sequence terminates with the number in place *)
 Theorem C16_jdk_adder_sequential : forall f64 maxcells ops s,
-  Good wrap64 s -> a_busy s = 0 -> Forall (op_ok wrap64) ops ->
+  Good wrap64 s -> a_busy s = 0 -> Forall (StripedSeq.op_ok wrap64) ops ->
   exists n, forall m, (n <= m)%nat ->
     let '(c, e) := run (striped wadd f64 maxcells) (Config s [mk_thread apc tt ops]) (repeat 0%nat m) in
     rets e = snd (spec_run wadd (value wrap64 s) ops) /\
@@ -63,3 +64,21 @@ Proof. exact striped_sequential_number_wadd. Qed.
 Print Assumptions C16_jdk_adder.
 Print Assumptions C16_jdk_f64_adder.
 Print Assumptions C16_jdk_adder_sequential.
+
+(** RandomCellAdder (any number n > 0 of cells): the same alternation-of-phases
+    statement - single-goroutine phases over the whole API and finished
+    concurrent update phases - agrees with the plain int64 number. *)
+Theorem C16_random_cell_adder : forall n s v ops m c e,
+  (0 < n)%nat -> rc_reach16 n s v -> Forall SimpleRCSeq.op_ok ops ->
+  run rc_adder (Config s [mk_thread rpc tt ops]) (repeat 0%nat m) = (c, e) -> all_done c ->
+  rets e = snd (spec_run wadd v ops).
+Proof. exact rc_C16. Qed.
+
+(** AtomicAdder / AtomicF64Adder, one goroutine, the WHOLE API including
+    SumAndReset: exactly the plain number. *)
+Theorem C16_atomic_adder_sequential : forall (v : Z) (ops : list aop) m c e,
+  run atomic_adder (Config v [mk_thread tpc tt ops]) (repeat 0%nat m) = (c, e) -> all_done c ->
+  rets e = snd (spec_run wadd v ops) /\ c_sh c = fst (spec_run wadd v ops).
+Proof. exact atomic_adder_seq_done. Qed.
+Print Assumptions C16_random_cell_adder.
+Print Assumptions C16_atomic_adder_sequential.
